@@ -17,7 +17,10 @@
    sptr_guard_kind feed SEModel.ptr_guard; SEProofs.ptr_guard_eq pins it to "a byte is readable"):
    c11_roundtrip_unlimited_scalar_ptr / _string_ptr state that a non-null top-level smart pointer survives a stream
    WITHOUT limit (BytesUntilLimit() is -1 there).
-   Proved for ALL values of ALL types of the universe (incl. sets, maps):  c11_size_exact.
+   Proved for ALL values of ALL `ty_ok` types (incl. sets, maps):  c11_size_exact.  vector/array size TRIVIAL elements
+   (float, double, aggregates of such) as size() * size(value[0]); a smart pointer is SIMPLE, never TRIVIAL, since
+   8a146e9 (regenerated: uptr/sptr_trivial_becomes), so TRIVIAL types hide no pointer (SEProofs.trivial_ptr_free) and
+   the shortcut is exact; c11_size_exact_former_witness is the value that refuted it before the fix.
    Proved for ALL byte strings and ALL types (incl. sets, maps, ill-formed schemas), debug and NDEBUG:
    c11_parse_terminates (flat array / string / stream under an enclosing limit: the result is never Hang) and
    c11_decode_consumes (a parser only moves forward inside its window and leaves the limit as it found it).
@@ -180,6 +183,12 @@ Example c11_compat_chunks_exist :
 Proof. exact compat_example. Qed.
 
 (* ---- refutations of the full statements (findings) ---- *)
+Example c11_size_exact_former_witness :
+  let t := TVec (TAgg [(1, TPtr false (TS KF32))]) in
+  let v := VSeq [VSeq [VNull]; VSeq [VSome (VInt 1065353216)]] in
+  wf t v /\ ty_ok t /\ ssize t v = Z.of_nat (length (encode t v)) /\ ssize t v = 7.
+Proof. exact se_size_exact_former_witness. Qed.
+
 Theorem c11_roundtrip_refuted : exists t v, wf t v /\ parse false false t (encode t v) <> Ok (norm t v) (S0 []).
 Proof. exact se_roundtrip_refuted_null_scalar_ptr. Qed.
 Print Assumptions c11_roundtrip_refuted.
